@@ -21,7 +21,8 @@ structure ParamDesc where
   deriving DecidableEq, Repr
 
 /-- acceptance by the parameter type's `Deserialize` impl (external serde behaviour, by tag):
-0 any value, 1 u64, 2 string, 3 bool, 4 array, 5 i64 (as i32-range-free integer), 6 object, 7 i32 -/
+0 any value, 1 u64, 2 string, 3 bool, 4 array, 5 i64 (as i32-range-free integer), 6 object, 7 i32,
+8 u128, 9 i128 -/
 def accepts (ty : Nat) (raw : Text) : Bool :=
   if ty == 1 then (decodeU64 raw).isSome
   else if ty == 2 then (decodeString raw).isSome
@@ -33,6 +34,12 @@ def accepts (ty : Nat) (raw : Text) : Bool :=
      | _ => (match decodeNat raw with | some n => n < 9223372036854775808 | none => false))
   else if ty == 6 then (members raw).isSome
   else if ty == 7 then (decodeI32 raw).isSome
+  else if ty == 8 then    -- u128
+    (match decodeNat raw with | some n => n < 340282366920938463463374607431768211456 | none => false)
+  else if ty == 9 then    -- i128
+    (match raw with
+     | 45 :: r => (match decodeNat r with | some n => n != 0 && n ≤ 170141183460469231731687303715884105728 | none => false)
+     | _ => (match decodeNat raw with | some n => n < 170141183460469231731687303715884105728 | none => false))
   else true
 
 /-- typed decoder of a parameter: the raw text if its type accepts it -/
